@@ -14,14 +14,14 @@ import (
 // provider chosen by the caller: start the provider with the managers
 // resolver callback, announce, and remember the report callback.
 func (m *MdnsManager) VerifAttach(provider api.MdnsProviderInterface, cb api.MdnsReportInterface) error {
+	m.setReportCallback(cb)
+
 	m.setProvider(provider)
 	_ = m.provider().Start(true, m.processMdnsEntry)
 
 	if err := m.AnnounceMdnsEntry(); err != nil {
 		return err
 	}
-
-	m.setReportCallback(cb)
 
 	return nil
 }
